@@ -3,6 +3,8 @@ package rules
 import (
 	"fmt"
 	"go/token"
+	"go/types"
+	"os"
 	"sort"
 	"strings"
 
@@ -44,6 +46,7 @@ func checkCompaction(c *Ctx, rule string, fn *ssa.Function) int {
 func checkC08(c *Ctx) {
 	c.Rule("C08.err", "every error produced while building the code model (packages deps and basicblock) is returned to the caller")
 	c.Rule("C08.jumps", "deps.jumps: targets are the Possibilities of the value of each RegStore to the instruction pointer, constant-folded before being inspected; a target is dropped only on the edge where it folded to a constant equal to ins.End(); the result is resliced to the write index")
+	c.Rule("C08.iter", "no loop of packages deps/basicblock whose trip count is fixed on entry (range, hoisted length) walks the contents of a slice variable while its body inserts into that same variable: the elements moved or added beyond the fixed count would never be visited")
 	c.Rule("C08.split", "basicblock: Parse chains sort -> pipelineApply(splitByAddress, splitByJumps) -> splitByJumpTargets -> split(entrypoint) and returns the resulting blocks; splitByAddress cuts exactly where End() != next.Begin(); splitByJumps cuts after an instruction with jump targets; splitByJumpTargets splits at every constant target that fits an address; block.split rejects addresses outside the block or not at an instruction start")
 	n := checkErrflow(c, "C08.err", []string{pkgDeps, pkgBB}, nil)
 	c.RequireCount("C08.err calls returning an error", n, 6)
@@ -266,6 +269,7 @@ func checkC08(c *Ctx) {
 			_ = l
 			nl++
 		}
+		checkNoGrowthWhileRanging(c, "C08.iter", []string{pkgBB, pkgDeps})
 		c.Oblige("C08.split", ShortName(st)+"/walks-blocks-instructions-jumps", c.Prog.FuncPos(st), nl >= 3, "splitByJumpTargets does not range over blocks, their instructions and their jumps")
 	}
 }
@@ -275,6 +279,7 @@ func checkC08(c *Ctx) {
 func checkC21(c *Ctx) {
 	c.Rule("C21.walk", "parser.Parse ranges over every block of the image; inside a block the address starts at block.Begin(), advances by the parsed instruction's Len() and stops at block.End(); parsed instructions are appended in order")
 	c.Rule("C21.same", "wherever parser.Parse (or a helper) decodes, it decodes p.Parse(addr, b) with b = block.Address(addr) of the current block and builds newInstruction(ins, addr, b) from the decoded instruction, the same address and the same bytes, after the decode and ins.Validate() succeeded")
+	c.Rule("C21.fresh", "no instruction appended to the result of parser.Parse derives from an element already in a list of instructions: every one is lifted for its own address")
 	c.Rule("C21.ins", "parser.newInstruction: Bytes = bytes[:ins.ByteLen], Addr = addr, Type/Details copied, Effects = EffectsApply(ins.Effects, ConstFold) and nothing else; Len() is len(Bytes)")
 	c.Rule("C21.err", "decode and validation errors abort Parse (error propagation in package parser)")
 	n := checkErrflow(c, "C21.err", []string{pkgParser}, nil)
@@ -446,6 +451,46 @@ func checkC21(c *Ctx) {
 				c.Oblige("C21.walk", key+"/append-in-order", c.Prog.Pos(nb.Pos()), appended, "the parsed instruction is not appended to the result")
 			}
 		}
+	}
+	// --- C21.fresh: nothing that is appended to a list of instructions derives
+	// from an element of such a list (an instruction lifted for another address)
+	if p := c.Prog.Func(ModulePath + "/" + pkgParser + ".Parse"); p != nil {
+		enter := InModulePkg(p)
+		isInsSlice := func(t types.Type) bool {
+			sl, ok := t.Underlying().(*types.Slice)
+			return ok && TypeNameIs(sl.Elem(), pkgParser+".Instruction")
+		}
+		nApp := 0
+		for _, as := range DeepInstrs(p, enter, func(in ssa.Instruction) bool {
+			ac, ok := in.(*ssa.Call)
+			if !ok {
+				return false
+			}
+			b, isBi := ac.Call.Value.(*ssa.Builtin)
+			return isBi && b.Name() == "append" && isInsSlice(ac.Type())
+		}) {
+			ac := as.Instr.(*ssa.Call)
+			nApp++
+			stale := DependsOnVia(as.Chain, ac.Call.Args[1], enter, func(v ssa.Value) bool {
+				ld, ok := v.(*ssa.UnOp)
+				if !ok || ld.Op != token.MUL {
+					return false
+				}
+				ia, ok := ld.X.(*ssa.IndexAddr)
+				return ok && isInsSlice(ia.X.Type())
+			}, func(v ssa.Value) bool {
+				// addresses and lengths may well come from the previous instruction
+				// (the walk advances by its length); only data flow counts
+				b, isBasic := v.Type().Underlying().(*types.Basic)
+				return isBasic && b.Info()&types.IsInteger != 0
+			})
+			k := ShortName(as.Fn) + "/appended-instruction-is-fresh"
+			if nApp > 1 {
+				k = fmt.Sprintf("%s#%d", k, nApp)
+			}
+			c.Oblige("C21.fresh", k, c.Prog.Pos(ac.Pos()), !stale, "an instruction put into the result derives from another element of the instruction list: its effects were lifted for a different address")
+		}
+		c.RequireCount("C21.fresh appends to the instruction list", nApp, 1)
 	}
 	if ni := anchor(c, pkgParser+".newInstruction"); ni != nil {
 		key := ShortName(ni)
@@ -1093,4 +1138,97 @@ func checkJumpsAppendForm(c *Ctx, j *ssa.Function) {
 		}
 	}
 	_ = folded
+}
+
+// checkNoGrowthWhileRanging: see rule C08.iter.
+func checkNoGrowthWhileRanging(c *Ctx, rule string, pkgs []string) {
+	// grows(f, i): f stores a longer slice through its i-th (pointer) parameter
+	grows := func(f *ssa.Function, i int) bool {
+		g := f
+		if g.Blocks == nil {
+			g = Origin(g)
+		}
+		if g == nil || g.Blocks == nil || i >= len(g.Params) {
+			return false
+		}
+		for _, b := range g.Blocks {
+			for _, in := range b.Instrs {
+				if st, ok := in.(*ssa.Store); ok && IsParam(st.Addr, g.Params[i]) {
+					if DependsOn(st.Val, func(v ssa.Value) bool {
+						call, ok := v.(*ssa.Call)
+						if !ok {
+							return false
+						}
+						bi, ok := call.Call.Value.(*ssa.Builtin)
+						return ok && bi.Name() == "append"
+					}) {
+						return true
+					}
+				}
+			}
+		}
+		return false
+	}
+	n := 0
+	for _, fn := range c.Prog.Funcs() {
+		in := false
+		for _, p := range pkgs {
+			if PkgPathOf(fn) == ModulePath+"/"+p {
+				in = true
+			}
+		}
+		if !in || fn.Blocks == nil {
+			continue
+		}
+		for _, l := range RangeLoops(fn) {
+			if l.IsMap || !l.FixedTrips {
+				continue
+			}
+			n++
+			if os.Getenv("MLTLINT_DEBUG") == "iter" {
+				fmt.Fprintf(os.Stderr, "iter: %s over %v (%T)\n", fn, l.Over, l.Over)
+			}
+			ld, ok := Unwrap(l.Over).(*ssa.UnOp)
+			if !ok || ld.Op != token.MUL {
+				continue
+			}
+			cell, ok := ld.X.(*ssa.Alloc)
+			if !ok {
+				continue
+			}
+			bad := ""
+			for b := range LoopBlocks(l.Header) {
+				for _, in := range b.Instrs {
+					switch x := in.(type) {
+					case *ssa.Store:
+						if x.Addr == ssa.Value(cell) && DependsOn(x.Val, func(v ssa.Value) bool {
+							call, ok := v.(*ssa.Call)
+							if !ok {
+								return false
+							}
+							bi, ok := call.Call.Value.(*ssa.Builtin)
+							return ok && bi.Name() == "append"
+						}) {
+							bad = c.Prog.Pos(x.Pos())
+						}
+					case ssa.CallInstruction:
+						f := x.Common().StaticCallee()
+						if f == nil {
+							continue
+						}
+						for i, a := range x.Common().Args {
+							if a == ssa.Value(cell) && grows(f, i) {
+								bad = c.Prog.Pos(x.Pos())
+							}
+						}
+					}
+				}
+			}
+			if bad != "" {
+				c.Fail(rule, fmt.Sprintf("%s/loop-over-%s", ShortName(fn), cell.Comment), c.Prog.FuncPos(fn), "the loop's trip count is fixed on entry but its body inserts into the ranged slice at "+bad+": elements moved beyond the count are never visited")
+			}
+		}
+	}
+	c.Oblige(rule, "loops-with-fixed-trip-count", "", true, "")
+	c.RequireCount(rule+" fixed-trip loops over slices in deps/basicblock", n, 10)
 }
